@@ -181,69 +181,71 @@ func statusOf(call *Expr) int64 {
 // webValidation: maxmem must parse; augment must parse and be 0 or 1;
 // similarity must be one of the four names or empty.
 func webValidation(c *Ctx, a *flAgg, fn *ssa.Function, x *SPE) {
-	okMaxmem, okAugment, okSim := true, true, true
-	seenMax, seenAug, seenSim := false, false, false
+	isPage := func(e *Expr) bool { return e.Op == OpCall && e.Fn != nil && e.Fn.Name() == "ToHTML" }
+	type res struct{ seen, bad bool }
+	r := map[string]*res{"maxmem": {}, "augment": {}, "similarity": {}}
 	for _, p := range x.Paths {
-		errs := callEvents(p, isCallTo("net/http", "Error"))
-		okPath := len(errs) == 0
-		for _, lt := range p.Lits {
-			s := lt.Atom.String()
-			// Atoi error on maxmem/augment
-			if strings.Contains(s, "strconv.Atoi(") && strings.HasSuffix(s, "#1 == nil)") {
-				if strings.Contains(s, `"maxmem"`) {
-					seenMax = true
-					if !lt.Pol && okPath {
-						okMaxmem = false
-					}
+		if len(callEvents(p, isPage)) == 0 {
+			continue
+		}
+		// a page is produced: every provided parameter must have been validated on this path
+		for _, name := range []string{"maxmem", "augment"} {
+			provided := false
+			parsed := false
+			nonNeg, atMostOne := false, false
+			for _, lt := range p.Lits {
+				s := lt.Atom.String()
+				if !strings.Contains(s, `"`+name+`"`) {
+					continue
 				}
-				if strings.Contains(s, `"augment"`) {
-					seenAug = true
-					if !lt.Pol && okPath {
-						okAugment = false
-					}
+				switch {
+				case strings.HasSuffix(s, `") == "")`) && !strings.Contains(s, "Atoi"):
+					provided = !lt.Pol
+				case strings.Contains(s, "strconv.Atoi(") && strings.HasSuffix(s, "#1 == nil)"):
+					parsed = lt.Pol
+				case strings.Contains(s, "strconv.Atoi(") && strings.HasSuffix(s, "#0 < 0)"):
+					nonNeg = !lt.Pol
+				case strings.Contains(s, "strconv.Atoi(") && strings.HasPrefix(s, "(1 < "):
+					atMostOne = !lt.Pol
 				}
 			}
-			// range of augment
-			if strings.Contains(s, `"augment"`) && strings.Contains(s, "strconv.Atoi(") && strings.Contains(s, "#0") {
-				if (strings.HasSuffix(s, "< 0)") && lt.Pol && okPath) || (strings.HasPrefix(s, "(1 < ") && lt.Pol && okPath) {
-					okAugment = false
-				}
+			if !provided {
+				continue
+			}
+			r[name].seen = true
+			if !parsed || (name == "augment" && !(nonNeg && atMostOne)) {
+				r[name].bad = true
 			}
 		}
-		// similarity: the success path must have a positive equality with one of the names
-		if okPath {
-			for _, lt := range p.Lits {
-				s := lt.Atom.String()
-				if strings.Contains(s, `"similarity"`) {
-					seenSim = true
-				}
-			}
-			pos := false
-			for _, lt := range p.Lits {
-				s := lt.Atom.String()
-				if lt.Pol && strings.Contains(s, `"similarity"`) && lt.Atom.Op == OpBin && lt.Atom.Tok == token.EQL {
+		pos := false
+		for _, lt := range p.Lits {
+			s := lt.Atom.String()
+			if strings.Contains(s, `"similarity"`) {
+				r["similarity"].seen = true
+				if lt.Pol && lt.Atom.Op == OpBin && lt.Atom.Tok == token.EQL {
 					pos = true
 				}
 			}
-			// only relevant once the method was GET and a page is produced
-			if len(callEvents(p, func(e *Expr) bool { return e.Op == OpCall && e.Fn != nil && e.Fn.Name() == "ToHTML" })) > 0 && !pos {
-				okSim = false
-			}
+		}
+		if !pos {
+			r["similarity"].bad = true
 		}
 	}
-	rep := func(ok, seen bool, key, msg string) {
+	msg := map[string]string{
+		"maxmem":     "a page is produced for a provided maxmem only if it parses as an integer",
+		"augment":    "a page is produced for a provided augment only if it parses and is 0 or 1",
+		"similarity": "a page is produced only for one of the listed similarity names (or the default)",
+	}
+	for _, name := range []string{"maxmem", "augment", "similarity"} {
 		switch {
-		case !seen:
-			a.bad("WEB-validate", key, "the parameter is not validated at all", fn.Pos())
-		case ok:
-			a.ok("WEB-validate", key, msg, fn.Pos())
+		case !r[name].seen:
+			a.bad("WEB-validate", "SnapshotHandler/"+name, "the parameter "+name+" is not examined on the page-producing paths", fn.Pos())
+		case r[name].bad:
+			a.bad("WEB-validate", "SnapshotHandler/"+name, "an invalid value of "+name+" can reach the page-producing path instead of a 4xx reply", fn.Pos())
 		default:
-			a.bad("WEB-validate", key, "an invalid value of this parameter reaches the page-producing path", fn.Pos())
+			a.ok("WEB-validate", "SnapshotHandler/"+name, msg[name], fn.Pos())
 		}
 	}
-	rep(okMaxmem, seenMax, "SnapshotHandler/maxmem", "a maxmem that does not parse never reaches the snapshot")
-	rep(okAugment, seenAug, "SnapshotHandler/augment", "an augment value that does not parse or is outside {0,1} never reaches the snapshot")
-	rep(okSim, seenSim, "SnapshotHandler/similarity", "the page is produced only for one of the listed similarity names (or the default)")
 }
 
 // webSnapshot: the capture buffer grows until the dump fits or maxmem is
